@@ -108,7 +108,13 @@ where
         should_continue: impl std::ops::Fn() -> bool + Clone,
     ) -> V {
         debug!("solve_root_goal(canonical_goal={:?})", canonical_goal);
-        assert!(self.stack.is_empty());
+        if !self.stack.is_empty() {
+            // A previous solve unwound (e.g. a panic in a database callback)
+            // and left in-progress goals behind. None of them had a final
+            // result, so forget them.
+            self.stack.clear();
+            self.search_graph.clear();
+        }
         let minimums = &mut Minimums::new();
         self.solve_goal(canonical_goal, minimums, solver_stuff, should_continue)
     }
